@@ -72,6 +72,11 @@ func (c *ConvergenceChecker) Update(t *sparse.Vector) error {
 		return err
 	}
 	d := td.Norm2()
+	if math.IsNaN(d) || math.IsInf(d, 0) {
+		// e.g. trust values whose row sum overflowed into NaN;
+		// NaN <= e never holds, so iteration would never stop.
+		return fmt.Errorf("trust vector delta is not finite (%v)", d)
+	}
 	c.logger.Trace().
 		Int("iteration", c.iter).
 		Float64("log10dPace", math.Log10(d/c.d)).
